@@ -96,6 +96,13 @@ func (l *queryLog) searchMemory(
 			// Go on and try to match anyway.
 		}
 
+		// Don't return the records that have been added before their host or
+		// client have started being ignored, just like with the records from
+		// the files.
+		if l.isIgnored(e.QHost) || (e.client != nil && e.client.IgnoreQueryLog) {
+			continue
+		}
+
 		if params.match(e) {
 			entries = append(entries, e)
 		}
